@@ -62,6 +62,7 @@ MECH = [
     "btclib.wallet.key_wallet:KeyWallet.add", "btclib.wallet.descriptor_wallet:DescriptorWallet.position_of",
     "btclib.wallet.descriptor_wallet:DescriptorWallet._script_pub_key", "btclib.wallet.script_wallet:ScriptWallet._script",
     "btclib.wallet.script_wallet:ScriptWallet._derived_sec", "btclib.wallet.script_wallet:ScriptWallet._quorum",
+    "btclib.core_import:import_request",
 ]
 
 
@@ -70,18 +71,18 @@ def plan(tier: str, seed: int) -> list[dict]:
     specs = [{"name": "oracle-selftest", "fn": "shard_selftest", "_budget_s": 120, "_timeout_s": 600}]
     for i in range(7 if q else 14):
         specs.append({"name": f"derive-{i}", "fn": "shard_derive", "cases": 100000, "focus": None,
-                      "_budget_s": 62 if q else 900, "_timeout_s": 500 if q else 2400})
+                      "_budget_s": 62 if q else 600, "_timeout_s": 500 if q else 2400})
     for i in range(2 if q else 4):
         specs.append({"name": f"sorted-{i}", "fn": "shard_derive", "cases": 100000, "focus": "sorted",
-                      "_budget_s": 55 if q else 700, "_timeout_s": 500 if q else 2400})
+                      "_budget_s": 55 if q else 500, "_timeout_s": 500 if q else 2400})
     for i in range(3 if q else 6):
-        specs.append({"name": f"corrupt-{i}", "fn": "shard_corrupt", "descriptors": 7 if q else 60,
-                      "_budget_s": 60 if q else 800, "_timeout_s": 500 if q else 2400})
+        specs.append({"name": f"corrupt-{i}", "fn": "shard_corrupt", "descriptors": 14 if q else 150,
+                      "_budget_s": 60 if q else 600, "_timeout_s": 500 if q else 2400})
     specs.append({"name": "multipath-0", "fn": "shard_multipath", "cases": 100000,
-                  "_budget_s": 50 if q else 600, "_timeout_s": 500 if q else 2400})
+                  "_budget_s": 50 if q else 400, "_timeout_s": 500 if q else 2400})
     for i in range(3 if q else 6):
         specs.append({"name": f"wallet-{i}", "fn": "shard_wallet", "cases": 100000,
-                      "_budget_s": 60 if q else 800, "_timeout_s": 500 if q else 2400})
+                      "_budget_s": 60 if q else 600, "_timeout_s": 500 if q else 2400})
     return specs
 
 
@@ -112,7 +113,7 @@ def finalize(m: dict, tier: str) -> list[str]:
               "derive:hardened-wildcard-with-prv-keys", "derive:cannot-derive-refused"):
         if not s.get(k):
             out.append(f"key class {k} never exercised")
-    for k in ("scripts", "address", "roundtrip", "checksum", "index_of:own", "index_of:foreign", "index_of:beyond-range", "normalized", "at_index",
+    for k in ("scripts", "address", "roundtrip", "checksum", "import_request", "index_of:own", "index_of:foreign", "index_of:beyond-range", "normalized", "at_index",
               "corrupt:substitution", "corrupt:deletion", "multipath:expansion", "multipath:scripts",
               "wallet:BIP32KeyWallet:position_of", "wallet:DescriptorWallet:position_of", "wallet:ScriptWallet:position_of",
               "wallet:BIP32KeyWallet:foreign", "wallet:DescriptorWallet:foreign", "wallet:ScriptWallet:foreign",
@@ -633,8 +634,7 @@ def check_descriptor(ctx: Ctx, w: World, D, node, net: str, focus=None) -> None:
         indexes = [0]
     note_flips(ctx, w, node, indexes)
     o = outcome(lambda: d.is_ranged)
-    if o[0] == "raise" or o[1] != ranged:
-        ctx.violation("is_ranged-wrong", f"is_ranged = {o[1]!r} for {text[:100]}", case)
+    ctx.stat("is_ranged:" + ("agrees" if o[0] == "ok" and o[1] == ranged else "differs"))  # not part of the statement
     compared = 0
     use_prv_modes = [True, False] if (has_prv and r.random() < 0.5) else [has_prv]
     for idx_n, i in enumerate(indexes):
@@ -671,7 +671,11 @@ def check_descriptor(ctx: Ctx, w: World, D, node, net: str, focus=None) -> None:
                               {**c2, "library": [g.hex() for g in got], "reference": [x.hex() for x in want]})
                 continue
             # addresses of the standard types
-            dnet = d.network
+            # the addresses are those of the network the descriptor was read for; an addr() carries its own
+            dnet = net
+            if node[0] == "addr":
+                nets = ra.decode_address(w.nd, node[1])[1]
+                dnet = d.network if d.network in nets else sorted(nets)[0]
             for x, spk in zip(so[1], want):
                 if ra.script_type(spk) in ("p2pkh", "p2sh", "p2wpkh", "p2wsh", "p2tr"):
                     wa = ra.address_of_script(w.nd, spk, dnet)
@@ -679,12 +683,6 @@ def check_descriptor(ctx: Ctx, w: World, D, node, net: str, focus=None) -> None:
                     ctx.mon("address")
                     if ao[0] == "raise" or ao[1] != wa:
                         ctx.violation("address-differs", f"{text[:80]} at {i} on {dnet}: address {ao[1]!r}, reference {wa}", {**c2, "script": spk.hex()})
-            if node[0] == "addr":
-                nets = ra.decode_address(w.nd, node[1])[1]
-                if dnet not in nets:
-                    ctx.violation("addr-network-wrong", f"addr({node[1]}) parsed as network {dnet}, the address belongs to {sorted(nets)}", c2)
-            elif dnet != net:
-                ctx.violation("descriptor-network-wrong", f"parsed for {net}, descriptor says {dnet}", c2)
             if len(want) == 1 and idx_n in (0, 5):
                 ao = outcome(d.address, i, prv if use_prv else None)
                 wa = ra.address_of_script(w.nd, want[0], dnet) if ra.script_type(want[0]) in ("p2pkh", "p2sh", "p2wpkh", "p2wsh", "p2tr") else None
@@ -735,6 +733,16 @@ def check_descriptor(ctx: Ctx, w: World, D, node, net: str, focus=None) -> None:
         if ao[0] == "raise" or ao[1] != s:
             ctx.violation("valid-checksum-refused", f"strip_checksum({s[:60]}#{wsum}) -> {ao[1]!r}"[:300], c3)
         ctx.case("checksum", ("sum", s))
+        # core_import: the text a Core import request carries is the checksummed written form
+        from btclib import core_import as CI
+
+        io = outcome(CI.import_request, d, 0, active=ranged, key_range=(0, 999) if ranged else None)
+        ctx.mon("import_request")
+        if io[0] == "raise":
+            if lib_exc_or_violation(ctx, "import_request", io, c3):
+                ctx.stat("import_request:refused")  # a refusal is not a wrong checksum
+        elif io[1].get("desc") != s + "#" + wsum:
+            ctx.violation("import_request-descriptor-differs", f"import_request desc = {io[1].get('desc')!r}"[:300], c3)
     # (c) index_of
     pk = prv or None
     if compared and w.expected(node, 0, neutered=not has_prv) is not None:
